@@ -412,6 +412,10 @@ func (c *canon) val(v ssa.Value, d int) string {
 		if p := spilledParam(x); p != nil {
 			return fmt.Sprintf("&p%d", paramIndex(p))
 		}
+		// `new(big.Int)` is the zero big integer: the same accumulator as big.NewInt(0)
+		if pt, ok := x.Type().(*types.Pointer); ok && types.TypeString(pt.Elem(), nil) == "math/big.Int" && len(storesTo(x)) == 0 {
+			return "big.NewInt(0)" + c.feeds(x, d)
+		}
 		return "local<" + namedOf(x.Type()) + ">"
 	case *ssa.Global:
 		return "g:" + x.Name()
